@@ -309,3 +309,638 @@ Proof. split; [apply schema_for_maps_to|apply maps_to_schema_for]. Qed.
 
 Theorem maps_to_functional reg t s1 s2 : maps_to reg t s1 -> maps_to reg t s2 -> s1 = s2.
 Proof. intros H1 H2. apply maps_to_schema_for in H1, H2. rewrite H1 in H2. injection H2 as <-. reflexivity. Qed.
+
+(* ================================================================== *)
+(* 3. Structural validity of the generated schema                      *)
+(* ================================================================== *)
+Lemma beqb_sym (a c : bytes) : bytes_eqb a c = bytes_eqb c a.
+Proof.
+  destruct (bytes_eqb a c) eqn:E.
+  - apply beqb_eq in E. subst. symmetry. apply beqb_refl.
+  - symmetry. apply beqb_neq. apply beqb_neq in E. congruence.
+Qed.
+
+(* --- 3a. unions: no union directly inside a union, no repeated branch --- *)
+Definition named_ty (ty : ident) : bool := is ty "record" || is ty "enum" || is ty "fixed".
+Definition bkey := (ident * ident * ident)%type.
+(* what makes two union branches "the same": the type name, and for named types the full name *)
+Definition branch_key (s : gschema) : bkey :=
+  match s with
+  | GS ty obj _ =>
+    if named_ty ty then match obj with Some (GO _ n ns _ _ _ _ _) => (ty, ns, n) | None => (ty, [], []) end
+    else (ty, [], [])
+  end.
+Definition bkey_eqb (x y : bkey) : bool :=
+  match x, y with (a, n, c), (a', n', c') => bytes_eqb a a' && bytes_eqb n n' && bytes_eqb c c' end.
+Fixpoint keys_distinct (l : list bkey) {struct l} : bool :=
+  match l with [] => true | x :: r => negb (existsb (bkey_eqb x) r) && keys_distinct r end.
+
+Fixpoint unions_ok (g : gschema) {struct g} : bool :=
+  match g with
+  | GS ty obj un =>
+    (if is ty "union" then
+       (fix go (l : list gschema) {struct l} : bool :=
+          match l with [] => true | x :: r => negb (is (gs_type x) "union") && unions_ok x && go r end) un
+       && keys_distinct (map branch_key un)
+     else true)
+    && match obj with None => true | Some o => unions_ok_obj o end
+  end
+with unions_ok_obj (o : gobject) {struct o} : bool :=
+  match o with
+  | GO _ _ _ fields items values _ _ =>
+    (fix go (l : list (ident * gschema)) {struct l} : bool :=
+       match l with [] => true | (_, x) :: r => unions_ok x && go r end) fields
+    && unions_ok items && unions_ok values
+  end.
+
+(* the invariant of generated (and registered) schemas *)
+Definition good (s : gschema) : Prop := unions_ok s = true /\ is (gs_type s) "null" = false.
+Definition sreg_ok (reg : sregistry) : Prop := forall k s, reg k = Some s -> good s.
+
+Lemma branch_key_type s : fst (fst (branch_key s)) = gs_type s.
+Proof. destruct s as [ty [[l n ns fs it vs sz sy]|] un]; cbn [branch_key gs_type]; destruct (named_ty ty); reflexivity. Qed.
+
+Lemma good_array s : good s -> good (gs_array s).
+Proof.
+  intros [H _]. split; [|reflexivity]. unfold gs_array. cbn [unions_ok unions_ok_obj].
+  change (is (b "array") "union") with false. change (unions_ok gs_zero) with true. rewrite H. reflexivity.
+Qed.
+Lemma good_map s : good s -> good (gs_map s).
+Proof.
+  intros [H _]. split; [|reflexivity]. unfold gs_map. cbn [unions_ok unions_ok_obj].
+  change (is (b "map") "union") with false. change (unions_ok gs_zero) with true. rewrite H. reflexivity.
+Qed.
+Lemma good_record name ns fs : Forall (fun p => good (snd p)) fs -> good (gs_record name ns fs).
+Proof.
+  intros H. split; [|reflexivity]. unfold gs_record. cbn [unions_ok unions_ok_obj].
+  change (is (b "record") "union") with false. change (unions_ok gs_zero) with true. cbn [andb]. rewrite !andb_true_r.
+  induction H as [|[n s] r [Hs _] _ IH]; [reflexivity|]. cbn [snd] in Hs. rewrite Hs, IH. reflexivity.
+Qed.
+Lemma good_nullable s : good s -> is_union s = false -> good (gs_nullable s).
+Proof.
+  intros [H Hn] Hu. split; [|reflexivity]. unfold is_union in Hu. unfold gs_nullable. cbn [unions_ok].
+  change (is (b "union") "union") with true. cbv iota. cbn [map keys_distinct existsb].
+  change (gs_type (gs_prim "null")) with (b "null"). change (is (b "null") "union") with false.
+  change (unions_ok (gs_prim "null")) with true. rewrite Hu, H. cbn [negb andb orb].
+  pose proof (branch_key_type s) as Hk. destruct (branch_key s) as [[a n] c]. cbn [fst] in Hk. subst a.
+  change (branch_key (gs_prim "null")) with ((b "null", [], []) : bkey). cbn [bkey_eqb].
+  unfold is in Hn. rewrite beqb_sym, Hn. reflexivity.
+Qed.
+
+Lemma keeps_shape_false s : keeps_shape s = false -> is_union s = false.
+Proof. unfold keeps_shape, is_union. intros H. apply orb_false_elim in H as [H _]. apply orb_false_elim in H as [H _]. exact H. Qed.
+
+Lemma good_field f s : good s -> good (field_schema f s).
+Proof.
+  intros H. unfold field_schema. destruct (omit_empty f); cbn [andb]; [|exact H].
+  destruct (is_union s) eqn:E; cbn [negb]; [exact H|apply good_nullable; assumption].
+Qed.
+
+Theorem schema_for_good reg : sreg_ok reg -> forall t s, schema_for reg t = Some s -> good s.
+Proof.
+  intros Hr t s H. apply schema_for_maps_to in H. revert t s H.
+  apply (maps_to_mut reg (fun _ s => good s) (fun _ fs => Forall (fun p => good (snd p)) fs)).
+  - intros t s H. destruct t; try discriminate H; eapply Hr; exact H.
+  - split; reflexivity.
+  - intros; split; reflexivity.
+  - split; reflexivity.
+  - split; reflexivity.
+  - split; reflexivity.
+  - intros; split; reflexivity.
+  - intros; split; reflexivity.
+  - intros e s _ _ IH. apply good_array. exact IH.
+  - intros n e s _ _ IH. apply good_array. exact IH.
+  - intros k e s _ IH. apply good_map. exact IH.
+  - intros e s _ IH _. exact IH.
+  - intros e s _ IH H. apply good_nullable; [exact IH|apply keeps_shape_false; exact H].
+  - intros name pkg fields fs _ IH. apply good_record. exact IH.
+  - intros id u s _ _ IH. exact IH.
+  - constructor.
+  - intros f r fs _ _ IH. exact IH.
+  - intros f r s fs _ _ IHs _ IHr. constructor; [apply good_field; exact IHs|exact IHr].
+Qed.
+
+Lemma sreg_std_ok : sreg_ok sreg_std.
+Proof. intros [[]|id] s H; try discriminate H; injection H as <-; split; reflexivity. Qed.
+
+Lemma sreg_set_ok reg id g : sreg_ok reg -> good g -> sreg_ok (sreg_set reg id g).
+Proof.
+  intros Hr Hg [w|i] s H; cbn [sreg_set] in H.
+  - eapply Hr; exact H.
+  - destruct (i =? id); [injection H as <-; exact Hg|eapply Hr; exact H].
+Qed.
+
+(* --- 3b. record definitions: every named type defined once, every record
+   named, field names distinct --- *)
+Definition rdef := (ident * ident * list ident)%type.     (* namespace, name, field names *)
+
+(* all record definitions in a schema, in document order *)
+Fixpoint rec_defs (g : gschema) {struct g} : list rdef :=
+  match g with
+  | GS ty obj un =>
+    match obj with None => [] | Some o => rec_defs_obj ty o end ++
+    (fix go (l : list gschema) {struct l} : list rdef :=
+       match l with [] => [] | x :: r => rec_defs x ++ go r end) un
+  end
+with rec_defs_obj (ty : ident) (o : gobject) {struct o} : list rdef :=
+  match o with
+  | GO _ n ns fields items values _ _ =>
+    (if is ty "record" then [(ns, n, map fst fields)] else []) ++
+    (fix go (l : list (ident * gschema)) {struct l} : list rdef :=
+       match l with [] => [] | (_, x) :: r => rec_defs x ++ go r end) fields ++
+    rec_defs items ++ rec_defs values
+  end.
+
+Definition nonempty (x : ident) : bool := match x with [] => false | _ => true end.
+Definition rd_fullname (d : rdef) : ident * ident := (fst (fst d), snd (fst d)).
+Definition rd_name (d : rdef) : ident := snd (fst d).
+
+(* every named type is defined once (a record without a name defines no name) *)
+Definition defs_once (l : list rdef) : Prop := NoDup (map rd_fullname (filter (fun d => nonempty (rd_name d)) l)).
+Definition defs_named (l : list rdef) : Prop := Forall (fun d => rd_name d <> []) l.
+Definition defs_fields_distinct (l : list rdef) : Prop := Forall (fun d => NoDup (snd d)) l.
+
+Definition names_defined_once (s : gschema) : Prop := defs_once (rec_defs s).
+Definition records_named (s : gschema) : Prop := defs_named (rec_defs s).
+Definition fields_distinct (s : gschema) : Prop := defs_fields_distinct (rec_defs s).
+
+(* "structurally valid Avro schema" *)
+Definition gs_valid (s : gschema) : Prop :=
+  unions_ok s = true /\ names_defined_once s /\ records_named s /\ fields_distinct s.
+
+(* the same list computed from the Go type: one entry per struct met through
+   kept fields, elements, map values and pointees; registered types contribute
+   the definitions of their registered schema *)
+Definition kept_names (l : list gfield) : list ident :=
+  map name_for_field (filter (fun f => negb (excluded f)) l).
+
+Fixpoint struct_defs (reg : sregistry) (t : gtype) {struct t} : list rdef :=
+  match sreg_lookup reg t with
+  | Some s => rec_defs s
+  | None =>
+    match t with
+    | TSlice e | TArray _ e => if is_u8 e then [] else struct_defs reg e
+    | TMap _ e => struct_defs reg e
+    | TPtr e => struct_defs reg e
+    | TNamed _ u => struct_defs reg u
+    | TStruct name pkg fields =>
+        (ns_replace pkg, name, kept_names fields) ::
+        (fix go (l : list gfield) {struct l} : list rdef :=
+           match l with
+           | [] => []
+           | GF fname ex js bq ft :: r =>
+               (if excluded (GF fname ex js bq ft) then [] else struct_defs reg ft) ++ go r
+           end) fields
+    | _ => []
+    end
+  end.
+
+Definition field_defs (reg : sregistry) (l : list gfield) : list rdef :=
+  flat_map (fun f => if excluded f then [] else struct_defs reg (gf_type f)) l.
+
+Lemma struct_defs_struct reg name pkg fields :
+  struct_defs reg (TStruct name pkg fields) = (ns_replace pkg, name, kept_names fields) :: field_defs reg fields.
+Proof.
+  cbn [struct_defs sreg_lookup]. f_equal. unfold field_defs.
+  induction fields as [|[fname ex js bq ft] r IH]; [reflexivity|]. cbn [flat_map gf_type]. rewrite <- IH. reflexivity.
+Qed.
+
+Lemma rec_defs_nullable s : rec_defs (gs_nullable s) = rec_defs s.
+Proof. unfold gs_nullable. cbn [rec_defs]. change (rec_defs (gs_prim "null")) with (@nil rdef). cbn [app]. apply app_nil_r. Qed.
+Lemma rec_defs_array s : rec_defs (gs_array s) = rec_defs s.
+Proof.
+  unfold gs_array. cbn [rec_defs rec_defs_obj]. change (is (b "array") "record") with false.
+  change (rec_defs gs_zero) with (@nil rdef). cbn [app]. rewrite !app_nil_r. reflexivity.
+Qed.
+Lemma rec_defs_map s : rec_defs (gs_map s) = rec_defs s.
+Proof.
+  unfold gs_map. cbn [rec_defs rec_defs_obj]. change (is (b "map") "record") with false.
+  change (rec_defs gs_zero) with (@nil rdef). cbn [app]. rewrite !app_nil_r. reflexivity.
+Qed.
+Lemma rec_defs_record name ns fs :
+  rec_defs (gs_record name ns fs) = (ns, name, map fst fs) :: flat_map (fun p => rec_defs (snd p)) fs.
+Proof.
+  unfold gs_record. cbn [rec_defs rec_defs_obj]. change (is (b "record") "record") with true.
+  change (rec_defs gs_zero) with (@nil rdef). cbn [app]. rewrite !app_nil_r. f_equal.
+  induction fs as [|[n s] r IH]; [reflexivity|]. cbn [flat_map snd]. rewrite IH. reflexivity.
+Qed.
+Lemma rec_defs_field f s : rec_defs (field_schema f s) = rec_defs s.
+Proof. unfold field_schema. destruct (_ && _); [apply rec_defs_nullable|reflexivity]. Qed.
+
+Theorem rec_defs_struct_defs reg : forall t s, schema_for reg t = Some s -> rec_defs s = struct_defs reg t.
+Proof.
+  induction t as [ | k | | | | | e IH | n e IH | k e IHk IH | e IH | name pkg fields IH | w | id u IH | k | | | | ]
+    using gty_ind; intros s H; try discriminate H.
+  - injection H as <-. reflexivity.
+  - destruct k; try discriminate H; injection H as <-; reflexivity.
+  - injection H as <-. reflexivity.
+  - injection H as <-. reflexivity.
+  - injection H as <-. reflexivity.
+  - rewrite sf_slice in H. cbn [struct_defs sreg_lookup]. destruct (is_u8 e); [injection H as <-; reflexivity|].
+    destruct (schema_for reg e) as [se|]; [|discriminate]. injection H as <-. rewrite rec_defs_array. apply IH. reflexivity.
+  - rewrite sf_array in H. cbn [struct_defs sreg_lookup]. destruct (is_u8 e); [injection H as <-; reflexivity|].
+    destruct (schema_for reg e) as [se|]; [|discriminate]. injection H as <-. rewrite rec_defs_array. apply IH. reflexivity.
+  - rewrite sf_map in H. cbn [struct_defs sreg_lookup].
+    destruct (schema_for reg e) as [se|]; [|discriminate]. injection H as <-. rewrite rec_defs_map. apply IH. reflexivity.
+  - rewrite sf_ptr in H. cbn [struct_defs sreg_lookup].
+    destruct (schema_for reg e) as [se|]; [|discriminate]. injection H as <-.
+    destruct (keeps_shape se); [|rewrite rec_defs_nullable]; apply IH; reflexivity.
+  - rewrite sf_struct in H. rewrite struct_defs_struct.
+    destruct (sf_fields reg fields) as [fs|] eqn:E; [|discriminate]. injection H as <-. rewrite rec_defs_record.
+    assert (G : map fst fs = kept_names fields /\ flat_map (fun p => rec_defs (snd p)) fs = field_defs reg fields).
+    { clear name pkg. revert fs E. induction IH as [|f r Hf _ IHr]; intros fs E.
+      - injection E as <-. split; reflexivity.
+      - cbn [sf_fields] in E. unfold kept_names, field_defs. cbn [filter flat_map]. destruct (excluded f) eqn:Ex; cbn [negb app].
+        + apply IHr. exact E.
+        + destruct (schema_for reg (gf_type f)) as [sf|] eqn:Es; [|discriminate].
+          destruct (sf_fields reg r) as [r'|]; [|discriminate]. injection E as <-.
+          destruct (IHr r' eq_refl) as [I1 I2]. cbn [map fst flat_map snd]. split.
+          * f_equal. exact I1.
+          * rewrite rec_defs_field, (Hf sf eq_refl). f_equal. exact I2. }
+    destruct G as [G1 G2]. rewrite G1, G2. reflexivity.
+  - rewrite sf_wrap in H. cbn [struct_defs sreg_lookup]. rewrite H. reflexivity.
+  - rewrite sf_named in H. cbn [struct_defs sreg_lookup]. destruct (reg (RNamed id)) as [g|].
+    + injection H as <-. reflexivity.
+    + apply IH. exact H.
+Qed.
+
+(* guards on the Go type *)
+Definition names_unique (reg : sregistry) (t : gtype) : Prop := defs_once (struct_defs reg t).
+Definition structs_named (reg : sregistry) (t : gtype) : Prop := defs_named (struct_defs reg t).
+Definition json_names_unique (reg : sregistry) (t : gtype) : Prop := defs_fields_distinct (struct_defs reg t).
+
+Theorem valid_partial reg t s : sreg_ok reg -> schema_for reg t = Some s ->
+  names_unique reg t -> structs_named reg t -> json_names_unique reg t -> gs_valid s.
+Proof.
+  intros Hr H H1 H2 H3. unfold gs_valid, names_defined_once, records_named, fields_distinct.
+  rewrite (rec_defs_struct_defs reg t s H). split; [apply (schema_for_good reg Hr t s H)|]. auto.
+Qed.
+
+Lemma named_once_partial reg t s : schema_for reg t = Some s -> names_unique reg t -> names_defined_once s.
+Proof. intros H H1. unfold names_defined_once. rewrite (rec_defs_struct_defs reg t s H). exact H1. Qed.
+Lemma records_named_partial reg t s : schema_for reg t = Some s -> structs_named reg t -> records_named s.
+Proof. intros H H1. unfold records_named. rewrite (rec_defs_struct_defs reg t s H). exact H1. Qed.
+Lemma fields_distinct_partial reg t s : schema_for reg t = Some s -> json_names_unique reg t -> fields_distinct s.
+Proof. intros H H1. unfold fields_distinct. rewrite (rec_defs_struct_defs reg t s H). exact H1. Qed.
+(* and conversely: the guards are exactly what is missing *)
+Lemma valid_iff_guards reg t s : sreg_ok reg -> schema_for reg t = Some s ->
+  (gs_valid s <-> names_unique reg t /\ structs_named reg t /\ json_names_unique reg t).
+Proof.
+  intros Hr H. unfold gs_valid, names_defined_once, records_named, fields_distinct, names_unique, structs_named, json_names_unique.
+  rewrite (rec_defs_struct_defs reg t s H). pose proof (schema_for_good reg Hr t s H) as [G _]. tauto.
+Qed.
+
+(* the refutations: witnesses *)
+Definition fld (name : string) (t : gtype) : gfield := GF (b name) true [] [] t.
+Definition fldj (name json : string) (t : gtype) : gfield := GF (b name) true (b json) [] t.
+
+Definition ex_leaf : gtype := TStruct (b "Leaf") (b "main") [fld "A" (TInt I64)].
+Definition ex_twice : gtype := TStruct (b "T") (b "main") [fld "X" ex_leaf; fld "Y" (TPtr ex_leaf)].
+Definition ex_dup : gtype := TStruct (b "T") (b "main") [fldj "G" "dup" (TInt I64); fldj "H" "dup" TString].
+Definition ex_anon : gtype := TStruct (b "T") (b "main") [fld "I" (TStruct [] [] [fld "Y" (TInt I64)])].
+
+Theorem named_twice_refuted : exists t s, schema_for sreg_std t = Some s /\ ~ names_defined_once s.
+Proof.
+  exists ex_twice. eexists. split; [vm_compute; reflexivity|].
+  unfold names_defined_once, defs_once. vm_compute. intros H.
+  inversion H as [|x l _ H2]; subst. inversion H2 as [|y l' Hn _]; subst. apply Hn. left. reflexivity.
+Qed.
+Theorem dup_field_refuted : exists t s, schema_for sreg_std t = Some s /\ ~ fields_distinct s.
+Proof.
+  exists ex_dup. eexists. split; [vm_compute; reflexivity|].
+  unfold fields_distinct, defs_fields_distinct. vm_compute. intros H.
+  inversion H as [|x l H1 _]; subst. inversion H1 as [|y l' Hn _]; subst. apply Hn. left. reflexivity.
+Qed.
+Theorem unnamed_refuted : exists t s, schema_for sreg_std t = Some s /\ ~ records_named s.
+Proof.
+  exists ex_anon. eexists. split; [vm_compute; reflexivity|].
+  unfold records_named, defs_named. vm_compute. intros H.
+  inversion H as [|x l _ H2]; subst. inversion H2 as [|y l' Hn _]; subst. apply Hn. reflexivity.
+Qed.
+
+(* ================================================================== *)
+(* 4. The codec builder on the generated schema                        *)
+(* ================================================================== *)
+Definition non_nu (s : schema) : Prop := match s with SNull | SUnion _ => False | _ => True end.
+
+Notation bldf reg := (fun s' t' om' => build reg s' t' om').
+
+Lemma build_union_eq reg brs t om :
+  build reg (SUnion brs) t om =
+  match brs with
+  | [SNull; x] => union_one (build reg x t om) 1
+  | [x; SNull] => union_one (build reg x t om) 0
+  | _ => option_map CUnion (build_list (fun x => build reg x t om) brs)
+  end.
+Proof. reflexivity. Qed.
+
+Lemma build_some_eq reg s ty om : non_nu s ->
+  build reg s (Some ty) om =
+  let (k, t0) := peel ty in
+  match k with
+  | O => build_base reg (bldf reg) s t0 om
+  | S _ => option_map (fun c => wrap_ptrs k c (zero_of t0)) (build_base reg (bldf reg) s t0 false)
+  end.
+Proof. destruct s; intros H; try contradiction; reflexivity. Qed.
+
+Lemma build_none_eq reg s om : non_nu s -> build reg s None om = disp (bldf reg) s None om.
+Proof. destruct s; intros H; try contradiction; reflexivity. Qed.
+
+Lemma build_list_congr (f g : schema -> option codec) l :
+  Forall (fun x => f x = g x) l -> build_list f l = build_list g l.
+Proof. induction 1 as [|x r Hx _ IH]; [reflexivity|]. cbn [build_list]. rewrite Hx, IH. reflexivity. Qed.
+
+(* a union codec depends on the registry and the Go type only through its branches *)
+Lemma build_union_congr reg1 reg2 t1 t2 om1 om2 brs :
+  Forall (fun x => build reg1 x t1 om1 = build reg2 x t2 om2) brs ->
+  build reg1 (SUnion brs) t1 om1 = build reg2 (SUnion brs) t2 om2.
+Proof.
+  intros H. rewrite !build_union_eq.
+  assert (G : option_map CUnion (build_list (fun x => build reg1 x t1 om1) brs) =
+              option_map CUnion (build_list (fun x => build reg2 x t2 om2) brs)).
+  { f_equal. apply build_list_congr. exact H. }
+  destruct brs as [|x1 [|x2 [|x3 l]]]; try exact G.
+  - destruct x1; exact G.
+  - inversion H as [|? ? E1 H']; subst. inversion H' as [|? ? E2 _]; subst.
+    destruct x1; destruct x2; cbv beta iota; try exact G; rewrite ?E1, ?E2; reflexivity.
+  - destruct x1; try exact G; destruct x2; exact G.
+Qed.
+
+Lemma nullable_step reg x t om :
+  is_some (build reg (SUnion [SNull; x]) t om) = is_some (build reg x t om).
+Proof.
+  rewrite build_union_eq. remember (build reg x t om) as r eqn:Er. clear Er.
+  destruct x; cbv beta iota; destruct r as [[]|]; reflexivity.
+Qed.
+
+Lemma ptr_step reg x e om : non_nu x ->
+  is_some (build reg x (Some (TPtr e)) om) = is_some (build reg x (Some e) false).
+Proof.
+  intros H. rewrite !(build_some_eq reg x _ _ H). cbn [peel]. destruct (peel e) as [k t0].
+  destruct k; destruct (build_base reg (bldf reg) x t0 false); reflexivity.
+Qed.
+
+(* a defined type without a registration behaves as its underlying type *)
+Lemma disp_named bld s id u om : disp bld s (Some (TNamed id u)) om = disp bld s (Some u) om.
+Proof. reflexivity. Qed.
+
+Lemma build_named reg id u : reg (RNamed id) = None ->
+  match u with TPtr _ => False | _ => True end -> reg_lookup reg u = None ->
+  forall s om, build reg s (Some (TNamed id u)) om = build reg s (Some u) om.
+Proof.
+  intros Hr Hp Hl. induction s using schema_ind'; intros om;
+    try (rewrite !build_some_eq by exact I; cbn [peel];
+         replace (peel u) with (O, u) by (destruct u; try reflexivity; contradiction);
+         unfold build_base; cbn [reg_lookup]; rewrite Hr, Hl; apply disp_named).
+  - reflexivity.
+  - apply build_union_congr. rewrite Forall_forall in *. intros x Hx. apply H. exact Hx.
+Qed.
+
+(* --- classification of the generated shapes --- *)
+Lemma classify_array s : classify (gs_array s) = SArray (classify s).
+Proof. reflexivity. Qed.
+Lemma classify_map s : classify (gs_map s) = SMap (classify s).
+Proof. reflexivity. Qed.
+Lemma classify_nullable s : classify (gs_nullable s) = SUnion [SNull; classify s].
+Proof. reflexivity. Qed.
+Lemma classify_record name ns fs :
+  classify (gs_record name ns fs) = SRecord (map (fun p => (fst p, classify (snd p))) fs).
+Proof.
+  unfold gs_record. cbn [classify classify_obj].
+  change (is (b "record") "null") with false. change (is (b "record") "boolean") with false.
+  change (is (b "record") "int") with false. change (is (b "record") "long") with false.
+  change (is (b "record") "float") with false. change (is (b "record") "double") with false.
+  change (is (b "record") "bytes") with false. change (is (b "record") "string") with false.
+  change (is (b "record") "union") with false. change (is (b "record") "record") with true. cbv iota.
+  f_equal. induction fs as [|[n s] r IH]; [reflexivity|]. cbn [map fst snd]. rewrite IH. reflexivity.
+Qed.
+
+Lemma non_nu_classify s : is (gs_type s) "union" = false -> is (gs_type s) "null" = false -> non_nu (classify s).
+Proof.
+  destruct s as [ty obj un]. cbn [gs_type]. intros Hu Hn. cbn [classify]. rewrite Hn.
+  destruct (is ty "boolean"); [exact I|]. destruct (is ty "int"); [exact I|]. destruct (is ty "long"); [exact I|].
+  destruct (is ty "float"); [exact I|]. destruct (is ty "double"); [exact I|]. destruct (is ty "bytes"); [exact I|].
+  destruct (is ty "string"); [exact I|]. rewrite Hu. destruct obj as [[l n ns fs it vs sz sy]|]; [|exact I].
+  cbn [classify_obj]. destruct (is ty "record"); [exact I|]. destruct (is ty "enum"); [exact I|].
+  destruct (is ty "array"); [exact I|]. destruct (is ty "map"); [exact I|]. destruct (is ty "fixed"); exact I.
+Qed.
+
+(* --- every union schema generation emits is [null, x] with x neither null nor a union --- *)
+Definition shaped (s : gschema) : Prop :=
+  is (gs_type s) "null" = false /\
+  (is_union s = true -> exists x, s = gs_nullable x /\ is_union x = false /\ is (gs_type x) "null" = false).
+Definition sreg_shaped (reg : sregistry) : Prop := forall k s, reg k = Some s -> shaped s.
+
+Lemma shaped_plain s : is (gs_type s) "null" = false -> is_union s = false -> shaped s.
+Proof. intros H1 H2. split; [exact H1|]. rewrite H2. discriminate. Qed.
+Lemma shaped_nullable s : shaped s -> is_union s = false -> shaped (gs_nullable s).
+Proof. intros [H1 _] H2. split; [reflexivity|]. intros _. exists s. auto. Qed.
+Lemma shaped_field f s : shaped s -> shaped (field_schema f s).
+Proof.
+  intros H. unfold field_schema. destruct (omit_empty f); cbn [andb]; [|exact H].
+  destruct (is_union s) eqn:E; cbn [negb]; [exact H|apply shaped_nullable; assumption].
+Qed.
+
+Theorem schema_for_shaped reg : sreg_shaped reg -> forall t s, schema_for reg t = Some s -> shaped s.
+Proof.
+  intros Hr t s H. apply schema_for_maps_to in H. revert t s H.
+  apply (maps_to_mut reg (fun _ s => shaped s) (fun _ fs => Forall (fun p => shaped (snd p)) fs)).
+  - intros t s H. destruct t; try discriminate H; eapply Hr; exact H.
+  - apply shaped_plain; reflexivity.
+  - intros; apply shaped_plain; reflexivity.
+  - apply shaped_plain; reflexivity.
+  - apply shaped_plain; reflexivity.
+  - apply shaped_plain; reflexivity.
+  - intros; apply shaped_plain; reflexivity.
+  - intros; apply shaped_plain; reflexivity.
+  - intros; apply shaped_plain; reflexivity.
+  - intros; apply shaped_plain; reflexivity.
+  - intros; apply shaped_plain; reflexivity.
+  - intros e s _ IH _. exact IH.
+  - intros e s _ IH H. apply shaped_nullable; [exact IH|apply keeps_shape_false; exact H].
+  - intros; apply shaped_plain; reflexivity.
+  - intros id u s _ _ IH. exact IH.
+  - constructor.
+  - intros f r fs _ _ IH. exact IH.
+  - intros f r s fs _ _ IHs _ IHr. constructor; [apply shaped_field; exact IHs|exact IHr].
+Qed.
+
+Lemma sreg_std_shaped : sreg_shaped sreg_std.
+Proof.
+  intros [[]|id] s H; try discriminate H; injection H as <-;
+    (apply shaped_nullable; [apply shaped_plain; reflexivity|reflexivity]).
+Qed.
+
+(* --- struct fields are found again by name when the kept names are distinct --- *)
+Definition ff_go (name : ident) : list gfield -> nat -> option (nat * gfield) -> option (nat * gfield) :=
+  fix go (l : list gfield) (i : nat) (found : option (nat * gfield)) {struct l} :=
+    match l with
+    | [] => found
+    | f :: r =>
+      let n := name_for_field f in
+      if negb (bytes_eqb n dash) && bytes_eqb n name then go r (S i) (Some (i, f)) else go r (S i) found
+    end.
+Lemma find_field_go name gfs : find_field name gfs = ff_go name gfs O None.
+Proof. reflexivity. Qed.
+
+Lemma ff_go_nomatch name : forall l i found,
+  ~ In name (kept_names l) -> ff_go name l i found = found.
+Proof.
+  induction l as [|f r IH]; intros i found Hn; [reflexivity|]. cbn [ff_go]. cbv zeta.
+  unfold kept_names in Hn. cbn [filter] in Hn. unfold excluded in Hn.
+  destruct (bytes_eqb (name_for_field f) dash) eqn:Ex; cbn [negb andb] in *.
+  - apply IH. exact Hn.
+  - cbn [map] in Hn. destruct (bytes_eqb (name_for_field f) name) eqn:En.
+    + exfalso. apply Hn. left. apply beqb_eq. exact En.
+    + apply IH. intros Hin. apply Hn. right. exact Hin.
+Qed.
+
+Lemma ff_go_found f : excluded f = false -> forall l i found,
+  NoDup (kept_names l) -> In f l -> exists j, ff_go (name_for_field f) l i found = Some (j, f).
+Proof.
+  intros Hf. induction l as [|f' r IH]; intros i found Hnd Hin; [contradiction|].
+  cbn [ff_go]. cbv zeta. unfold kept_names in Hnd. cbn [filter] in Hnd. unfold excluded in Hnd, Hf.
+  destruct (bytes_eqb (name_for_field f') dash) eqn:Ex; cbn [negb andb] in *.
+  - destruct Hin as [->|Hin]; [rewrite Hf in Ex; discriminate|]. apply IH; assumption.
+  - cbn [map] in Hnd. inversion Hnd as [|? ? Hnotin Hnd']; subst.
+    destruct (bytes_eqb (name_for_field f') (name_for_field f)) eqn:En.
+    + apply beqb_eq in En. destruct Hin as [->|Hin].
+      * exists i. apply ff_go_nomatch. exact Hnotin.
+      * exfalso. apply Hnotin. rewrite En. unfold kept_names.
+        apply in_map. apply filter_In. split; [exact Hin|]. unfold excluded. rewrite Hf. reflexivity.
+    + destruct Hin as [->|Hin]; [rewrite beqb_refl in En; discriminate|]. apply IH; assumption.
+Qed.
+
+Fixpoint nodupb (l : list ident) {struct l} : bool :=
+  match l with [] => true | x :: r => negb (existsb (bytes_eqb x) r) && nodupb r end.
+Lemma nodupb_NoDup l : nodupb l = true -> NoDup l.
+Proof.
+  induction l as [|x r IH]; intros H; [constructor|]. cbn [nodupb] in H. apply andb_prop in H as [H1 H2].
+  constructor; [|apply IH; exact H2]. intros Hin. apply negb_true_iff in H1.
+  assert (existsb (bytes_eqb x) r = true) by (apply existsb_exists; exists x; split; [exact Hin|apply beqb_refl]).
+  congruence.
+Qed.
+
+(* --- the class of types for which the builder accepts the generated schema:
+   the encoder's domain (no int8, no unsigned kinds except the uint8 of []byte,
+   no Go arrays, string-keyed maps, distinct JSON names per struct, defined
+   types over non-pointer kinds); pointers of any depth are included --- *)
+Fixpoint codec_buildable (t : gtype) {struct t} : bool :=
+  match t with
+  | TBool | TFloat32 | TFloat64 | TString => true
+  | TInt k => match k with I16 | I32 | I64 | IInt => true | _ => false end
+  | TSlice e => is_u8 e || codec_buildable e
+  | TMap k e => match underlying k with TString => codec_buildable e | _ => false end
+  | TPtr e => codec_buildable e
+  | TStruct _ _ fields =>
+      nodupb (kept_names fields) &&
+      (fix go (l : list gfield) {struct l} : bool :=
+         match l with
+         | [] => true
+         | GF fname ex js bq ft :: r => (excluded (GF fname ex js bq ft) || codec_buildable ft) && go r
+         end) fields
+  | TWrap _ => true
+  | TNamed _ u => match u with TPtr _ | TWrap _ => false | _ => codec_buildable u end
+  | _ => false
+  end.
+
+Lemma codec_buildable_struct name pkg fields :
+  codec_buildable (TStruct name pkg fields) =
+  nodupb (kept_names fields) && forallb (fun f => excluded f || codec_buildable (gf_type f)) fields.
+Proof.
+  cbn [codec_buildable]. f_equal.
+  induction fields as [|[fname ex js bq ft] r IH]; [reflexivity|]. cbn [forallb gf_type]. rewrite <- IH. reflexivity.
+Qed.
+
+Definition cfields (fs : list (ident * gschema)) : list (ident * schema) :=
+  map (fun p => (fst p, classify (snd p))) fs.
+
+Theorem codec_decided : forall t s, schema_for sreg_std t = Some s -> codec_buildable t = true ->
+  forall om, is_some (build reg_std (classify s) (Some t) om) = true.
+Proof.
+  induction t as [ | k | | | | | e IH | n e IH | k e IHk IH | e IH | name pkg fields IH | w | id u IH | k | | | | ]
+    using gty_ind; intros s H Hb om; try discriminate Hb; try discriminate H.
+  - injection H as <-. reflexivity.
+  - destruct k; try discriminate Hb; injection H as <-; reflexivity.
+  - injection H as <-. reflexivity.
+  - injection H as <-. reflexivity.
+  - injection H as <-. reflexivity.
+  - (* slice *)
+    rewrite sf_slice in H. cbn [codec_buildable] in Hb. destruct (is_u8 e) eqn:E8.
+    + injection H as <-. change (classify (gs_prim "bytes")) with SBytes.
+      rewrite build_some_eq by exact I. cbn [peel]. unfold build_base. cbn [reg_lookup]. unfold disp.
+      cbn [option_map underlying build_prim]. rewrite E8. reflexivity.
+    + cbn [orb] in Hb. destruct (schema_for sreg_std e) as [se|] eqn:Es; [|discriminate]. injection H as <-.
+      rewrite classify_array, build_some_eq by exact I. cbn [peel]. unfold build_base. cbn [reg_lookup]. unfold disp.
+      cbn [option_map underlying]. specialize (IH se eq_refl Hb false).
+      destruct (build reg_std (classify se) (Some e) false); [reflexivity|discriminate].
+  - (* map *)
+    rewrite sf_map in H. cbn [codec_buildable] in Hb. destruct (underlying k) eqn:Ek; try discriminate Hb.
+    destruct (schema_for sreg_std e) as [se|] eqn:Es; [|discriminate]. injection H as <-.
+    rewrite classify_map, build_some_eq by exact I. cbn [peel]. unfold build_base. cbn [reg_lookup]. unfold disp.
+    cbn [option_map underlying]. rewrite Ek. specialize (IH se eq_refl Hb false).
+    destruct (build reg_std (classify se) (Some e) false); [reflexivity|discriminate].
+  - (* pointer *)
+    rewrite sf_ptr in H. cbn [codec_buildable] in Hb. destruct (schema_for sreg_std e) as [se|] eqn:Es; [|discriminate].
+    injection H as <-. specialize (IH se eq_refl Hb).
+    pose proof (schema_for_shaped sreg_std sreg_std_shaped e se Es) as [Hnn Hsh].
+    destruct (keeps_shape se) eqn:Ek.
+    + destruct (is_union se) eqn:Eu.
+      * destruct (Hsh eq_refl) as (x & -> & Hxu & Hxn). rewrite classify_nullable in *.
+        rewrite nullable_step, ptr_step by (apply non_nu_classify; assumption).
+        rewrite <- nullable_step. apply IH.
+      * rewrite ptr_step by (apply non_nu_classify; assumption). apply IH.
+    + rewrite classify_nullable, nullable_step, ptr_step; [apply IH|].
+      apply non_nu_classify; [apply keeps_shape_false; exact Ek|exact Hnn].
+  - (* struct *)
+    rewrite sf_struct in H. rewrite codec_buildable_struct in Hb. apply andb_prop in Hb as [Hnd Hall].
+    apply nodupb_NoDup in Hnd. destruct (sf_fields sreg_std fields) as [fs|] eqn:E; [|discriminate]. injection H as <-.
+    rewrite classify_record, build_some_eq by exact I. cbn [peel]. unfold build_base. cbn [reg_lookup]. unfold disp.
+    cbn [option_map underlying struct_fields].
+    enough (G : is_some (build_fields (bldf reg_std) (Some fields) (map (fun p => (fst p, classify (snd p))) fs)) = true).
+    { destruct (build_fields _ _ _); [reflexivity|discriminate]. }
+    assert (Hfind : forall f, In f fields -> excluded f = false ->
+                    exists j, find_field (name_for_field f) fields = Some (j, f)).
+    { intros f Hin Hex. rewrite find_field_go. apply ff_go_found; assumption. }
+    rewrite forallb_forall in Hall. rewrite Forall_forall in IH.
+    enough (Gen : forall l, (forall f, In f l -> In f fields) -> forall fs0, sf_fields sreg_std l = Some fs0 ->
+              is_some (build_fields (bldf reg_std) (Some fields) (map (fun p => (fst p, classify (snd p))) fs0)) = true).
+    { apply (Gen fields); [auto|exact E]. }
+    clear fs E.
+    induction l as [|f r IHl]; intros Hsub fs E.
+    + injection E as <-. reflexivity.
+    + cbn [sf_fields] in E. destruct (excluded f) eqn:Ex.
+      * apply IHl; [|exact E]. intros f' Hf'. apply Hsub. right. exact Hf'.
+      * destruct (schema_for sreg_std (gf_type f)) as [sf|] eqn:Esf; [|discriminate].
+        destruct (sf_fields sreg_std r) as [r'|] eqn:Er; [|discriminate]. injection E as <-.
+        cbn [map fst snd build_fields].
+        assert (Hin : In f fields) by (apply Hsub; left; reflexivity).
+        destruct (Hfind f Hin Ex) as [j Hj]. rewrite Hj.
+        specialize (IHl (fun f' Hf' => Hsub f' (or_intror Hf')) r' eq_refl).
+        pose proof (Hall f Hin) as Hbf. rewrite Ex in Hbf. cbn [orb] in Hbf.
+        pose proof (IH f Hin sf Esf Hbf (omit_empty f)) as Hone.
+        assert (Hfc : is_some (build reg_std (classify (field_schema f sf)) (Some (gf_type f)) (omit_empty f)) = true).
+        { unfold field_schema. destruct (omit_empty f && negb (is_union sf)); [|exact Hone].
+          rewrite classify_nullable, nullable_step. exact Hone. }
+        destruct (build reg_std (classify (field_schema f sf)) (Some (gf_type f)) (omit_empty f)); [|discriminate].
+        destruct (build_fields _ _ _); [reflexivity|discriminate].
+  - (* wrapper types *)
+    rewrite sf_wrap in H. destruct w; injection H as <-; reflexivity.
+  - (* defined types *)
+    rewrite sf_named in H. cbn [sreg_std] in H. cbn [codec_buildable] in Hb.
+    rewrite build_named; [apply IH; [exact H|]| reflexivity | |].
+    + destruct u; try discriminate Hb; exact Hb.
+    + destruct u; try discriminate Hb; exact I.
+    + destruct u; try discriminate Hb; reflexivity.
+Qed.
+
+(* at the top: SchemaForType followed by Schema.Codec on the same struct type *)
+Corollary codec_decided_top t s : schema_for_type sreg_std t = Some s ->
+  codec_buildable (match t with TPtr e => e | _ => t end) = true ->
+  exists c, build reg_std (classify s) (Some (match t with TPtr e => e | _ => t end)) false = Some c.
+Proof.
+  unfold schema_for_type. set (t' := match t with TPtr e => e | _ => t end).
+  destruct (underlying t'); try discriminate. intros H Hb.
+  pose proof (codec_decided t' s H Hb false) as G. destruct (build reg_std (classify s) (Some t') false) as [c|]; [|discriminate].
+  exists c. reflexivity.
+Qed.
